@@ -1,14 +1,51 @@
 (* C06 — an AsyncContext is active exactly while its task, or work it awaits, runs.
-   Statements only; proofs in proofs/MachineDFS.v.  The model keeps, per task, the flag
-   _contexts_active; _resume_contexts/_pause_contexts flip it and call resume()/pause() on every open
-   context of the task, so the flag IS the state of the task's contexts between enter and exit.
-   Proved for yield-only tree programs (plain AsyncContexts and scoped overrides, every flush order):
-   (1) at the end of every _execute pass, hence at every scheduler flush, no uncompleted task has active
-       contexts; (2) while a task's body runs its contexts are active and any other uncompleted task with
-       active contexts is still on the scheduler's stack.
-   NOT proved: per-context resume/pause alternation as a trace property, the awaiting-ancestors
-   characterisation, NonAsyncContext, synchronous re-entry - correspondence + monitors. *)
-From Asynq Require Import Machine Seq proofs.MachineC08 proofs.MachineC01 proofs.MachineDFS.
+   Statements only; proofs in proofs/MachineDFS.v (flags) and proofs/MachineC06T.v (resume/pause trace).
+   The model keeps, per task, the flag _contexts_active; _resume_contexts/_pause_contexts flip it and call
+   resume()/pause() on every open context of the task, so the flag IS the state of the task's contexts between
+   enter and exit.  An AsyncContext with id cid in task t logs EvResume t cid at every resume() (on entry:
+   enter_ctx; by the scheduler: resume1) and EvPause t cid at every pause() (on exit: pause_plain in exit_ctx;
+   by the scheduler: pause1).  [ctx_events t cid tr] is the list of these two events of the key (t, cid) in the
+   newest-first trace tr, OLDEST first; [alternates t cid true l] says l is resume, pause, resume, ... starting
+   with a resume; [filter (evk t cid) tr] is the same list newest first.
+
+   PROVED, for every pointwise service P (no flush body raises half way), every flush order/priorities/fuel n, as long
+   as no exception unwound through asynq's frames (no_unwind: the MAX_TASK_STACK_SIZE guard did not fire):
+   for yield-only tree programs (tree p: plain AsyncContexts whose resume/pause do not raise, and scoped overrides):
+   (1) C06_contexts_paused_at_every_flush_tree: at the end of every _execute pass, hence at every scheduler flush,
+       no uncompleted task has active contexts;
+   (2) C06_contexts_active_while_own_code_runs_tree: while a task's body runs its contexts are active and any other
+       uncompleted task with active contexts is still on the scheduler's stack;
+   and for tree programs whose with-blocks are well nested (wn [] p: every with-block is closed on every exit path -
+   normal end, exception, early result - innermost first; contexts open at the same time in one task have distinct
+   ids; an id may be re-used after its block was left):
+   (3) C06_resume_pause_alternate (A1), also as C06_run_case_resume_pause_alternate on the chronological trace of
+       Machine.run_case: for every task t and context id cid the resume/pause events of (t, cid) strictly alternate,
+       starting with a resume - at every point of the run, across suspensions, batch flushes and re-use of the id;
+   (4) C06_newest_is_resume_iff_active: at every reachable configuration the newest event of (t, cid) is a resume
+       exactly when t is an uncompleted task with _contexts_active set and an AsyncContext cid open (the invariant
+       from which the others follow);
+   (5) C06_all_paused_at_flush_and_end (A2): at every flush point (MAfterExec) and when the outermost call has returned
+       (MDone o, value or error) the newest event of every (t, cid) that has any event is a pause;
+   (6) C06_resumed_while_own_code_runs (A3): while the body of t runs, the newest event of every AsyncContext that t
+       has open is a resume;
+   (7) C06_resumed_only_in_awaiting_tasks: while the body of t runs, a context of a task u whose newest event is a
+       resume belongs to u = t or to a task that awaits t (t is reachable from u through the dependency lists of
+       uncompleted tasks, MachineC04.reach): a context is paused whenever a task its owner is not awaiting runs.
+   REFUTED (C06_alternation_all_contexts_is_false): statement (3) for ALL programs with well-nested with-blocks, i.e.
+   also for contexts whose pause()/resume() raise, is FALSE in the faithful model: with a NonAsyncContext nested inside
+   an AsyncContext in a task that blocks, _pause_contexts pauses the AsyncContext, the NonAsyncContext's assertion
+   error is delivered through _accept_error, generator.close() runs the with-blocks' __exit__, and the AsyncContext
+   is paused a second time: resume, pause, pause (witness c06_cx, by vm_compute; MachineC06T.c06_cx_one_events: a
+   single AsyncContext whose scheduler-driven pause() raises gives the same resume, pause, pause).  (3) is proved for
+   the contexts that cannot fail.
+   NOT PROVED: programs outside tree/wn - Let/Sync (synchronous re-entry through .value(), "including synchronous
+   calls it makes"), ReadVar/Probe branching, shared futures (DAGs), with-blocks left open when a task ends, contexts
+   whose resume() raises (one run computed in c06_cx_one_events alternates; nothing proved), non-pointwise services, runs in which
+   the task-stack guard fired; the converse of (7) (every awaiting task's contexts ARE resumed while t runs) is only
+   proved for t itself (6) - for ancestors it follows from MachineC07's layer structure but is not stated here.
+   These are covered by the correspondence harness + monitors. *)
+From Asynq Require Import Machine Seq proofs.MachineC08 proofs.MachineC01 proofs.MachineDFS proofs.MachineC04
+     proofs.MachineC07 proofs.MachineC06T.
 
 Theorem C06_contexts_paused_at_every_flush_tree : forall P, pointwise P -> forall p, tree p -> forall n,
   let h := fst (create [] (FTask p) (st0 P)) in
@@ -28,3 +65,80 @@ Theorem C06_contexts_active_while_own_code_runs_tree : forall P, pointwise P -> 
      In u (tasks (c_st (run P n (start h s1))))).
 Proof. exact contexts_active_while_running_tree. Qed.
 Print Assumptions C06_contexts_active_while_own_code_runs_tree.
+
+(* A1 *)
+Theorem C06_resume_pause_alternate : forall P, pointwise P -> forall p, tree p -> wn [] p -> forall n t cid,
+  let h := fst (create [] (FTask p) (st0 P)) in
+  let s1 := snd (create [] (FTask p) (st0 P)) in
+  no_unwind P n (start h s1) ->
+  alternates t cid true (ctx_events t cid (trace (c_st (run P n (start h s1))))).
+Proof. exact resume_pause_alternate_tree. Qed.
+Print Assumptions C06_resume_pause_alternate.
+
+Theorem C06_run_case_resume_pause_alternate : forall P p n t cid,
+  pointwise P -> tree p -> wn [] p ->
+  no_unwind P n (start (fst (create [] (FTask p) (st0 P))) (snd (create [] (FTask p) (st0 P)))) ->
+  alternates t cid true (filter (evk t cid) (snd (run_case P n [p]))).
+Proof. exact run_case_resume_pause_alternate. Qed.
+Print Assumptions C06_run_case_resume_pause_alternate.
+
+(* the invariant *)
+Theorem C06_newest_is_resume_iff_active : forall P, pointwise P -> forall p, tree p -> wn [] p -> forall n t cid,
+  let h := fst (create [] (FTask p) (st0 P)) in
+  let s1 := snd (create [] (FTask p) (st0 P)) in
+  no_unwind P n (start h s1) ->
+  let s := c_st (run P n (start h s1)) in
+  (exists rest, filter (evk t cid) (trace s) = EvResume t cid :: rest) <->
+  (exists tk f, get t s = Some (mkFut None (KTask tk)) /\ tk_cact tk = true /\ In (CAsync cid f) (tk_ctxs tk)).
+Proof. exact newest_is_resume_iff_active_tree. Qed.
+Print Assumptions C06_newest_is_resume_iff_active.
+
+(* A2 *)
+Theorem C06_all_paused_at_flush_and_end : forall P, pointwise P -> forall p, tree p -> wn [] p -> forall n t cid,
+  let h := fst (create [] (FTask p) (st0 P)) in
+  let s1 := snd (create [] (FTask p) (st0 P)) in
+  no_unwind P n (start h s1) ->
+  (c_mode (run P n (start h s1)) = MAfterExec \/ exists o, c_mode (run P n (start h s1)) = MDone o) ->
+  match filter (evk t cid) (trace (c_st (run P n (start h s1)))) with [] => True | e :: _ => e = EvPause t cid end.
+Proof. exact all_paused_at_flush_and_end_tree. Qed.
+Print Assumptions C06_all_paused_at_flush_and_end.
+
+(* A3 *)
+Theorem C06_resumed_while_own_code_runs : forall P, pointwise P -> forall p, tree p -> wn [] p -> forall n t q,
+  let h := fst (create [] (FTask p) (st0 P)) in
+  let s1 := snd (create [] (FTask p) (st0 P)) in
+  no_unwind P n (start h s1) -> c_mode (run P n (start h s1)) = MRun t q ->
+  let s := c_st (run P n (start h s1)) in
+  forall tk, get t s = Some (mkFut None (KTask tk)) -> forall cid f, In (CAsync cid f) (tk_ctxs tk) ->
+    exists rest, filter (evk t cid) (trace s) = EvResume t cid :: rest.
+Proof. exact resumed_while_own_code_runs_tree. Qed.
+Print Assumptions C06_resumed_while_own_code_runs.
+
+Theorem C06_resumed_only_in_awaiting_tasks : forall P, pointwise P -> forall p, tree p -> wn [] p -> forall n t q u cid,
+  let h := fst (create [] (FTask p) (st0 P)) in
+  let s1 := snd (create [] (FTask p) (st0 P)) in
+  no_unwind P n (start h s1) -> c_mode (run P n (start h s1)) = MRun t q ->
+  let s := c_st (run P n (start h s1)) in
+  (exists rest, filter (evk u cid) (trace s) = EvResume u cid :: rest) -> reach s u t.
+Proof. exact resumed_only_in_awaiting_tasks_tree. Qed.
+Print Assumptions C06_resumed_only_in_awaiting_tasks.
+
+(* the alternation clause does not extend to contexts whose pause() raises: resume, pause, pause *)
+Theorem C06_alternation_all_contexts_is_false : ~ alternation_all_contexts_statement.
+Proof. exact alternation_all_contexts_is_false. Qed.
+Print Assumptions C06_alternation_all_contexts_is_false.
+
+(* non-vacuity: the parent's AsyncContext 1 is resumed and paused four times (entry, two suspensions around batch
+   flushes, exit and re-entry with the same id, exit), the child's context 1 twice; the run ends with a value *)
+Example C06_hypotheses_are_met :
+  let P := mkP [] 1000 false [] in
+  let h := fst (create [] (FTask c06_demo) (st0 P)) in
+  let s1 := snd (create [] (FTask c06_demo) (st0 P)) in
+  let tr_at k := trace (c_st (run P k (start h s1))) in
+  let R t := EvResume t 1 in let Z t := EvPause t 1 in
+  tree c06_demo /\ wn [] c06_demo /\ no_unwind_b P 200 (start h s1) = true /\
+  c_mode (run P 200 (start h s1)) = MDone (Ok (VInt 6)) /\
+  ctx_events [0] 1 (tr_at 200%nat) = [R [0]; Z [0]; R [0]; Z [0]; R [0]; Z [0]; R [0]; Z [0]] /\
+  ctx_events [1] 1 (tr_at 200%nat) = [R [1]; Z [1]; R [1]; Z [1]].
+Proof. exact c06_demo_runs. Qed.
+Print Assumptions C06_hypotheses_are_met.
